@@ -2,7 +2,7 @@ CHECKS = [
     entry("C30", "timing",
           technique="property-based testing (rapid): model-based stateful histories against the real health.Health on virtual time (testing/synctest), one-directional oracle with one-tick slack",
           quick=dict(checks=20000, budget_s=40),
-          thorough=dict(checks=40000, shards=16, budget_s=300),
+          thorough=dict(checks=150000, shards=16, budget_s=400),
           level_text="Generated Register/Unregister/Ready/advance histories with advances aimed at timeout-tick, timeout, timeout+tick (+-1 ns) and at tick boundaries; IsAlive/IsReady after every step are compared with a reference model of report instants. Exploration: finds liveness/readiness answers outside the stated one-tick slack on any history the generator reaches; does not prove absence.",
           level_note="Trusts testing/synctest virtual time; /alive and /ready HTTP handlers are not exercised here (router engine); concurrent callers are not explored."),
 ]
